@@ -38,3 +38,16 @@ CHECKS["C04"] = dict(
     text="CrossHair explores every path of the real Project.reuse_info_of -> NestedReuseTOML/ReuseTOML/ReuseDep5 chain for own information (6 kinds) x .license sibling (5 kinds) x every chain of 2 (quick) / 3 (thorough) nested REUSE.toml files, each absent or one of 12 precedence x information shapes, plus two tables in one file (last match wins) and .reuse/dep5; the postcondition compares attributed copyright/licence sets, their source path and source type, and whether the file was read, with a model written from the statement. Counterexamples are replayed on a real temporary tree through Project.from_directory.",
     note="Stubs: the file reader (C02's subject), is_binary, _determine_license_path; pathlib pure-path methods run natively on concrete values. The space is a finite table; the solver's role is exhaustive, feasibility-checked path exploration. Known finding closest-split (closest[0]) is carved out by a predicate and re-established on a real tree on every run.",
 )
+
+CHECKS["C06"] = dict(
+    engine="XH+RZ3",
+    technique="symbolic execution (CrossHair + z3) of the real licence-inventory pipeline against the statement's set algebra; z3 regex equivalence for the LicenseRef- pattern",
+    text="CrossHair explores every path of the real pipeline LICENSES listing -> Project._find_licenses -> FileReport.generate -> ProjectReport.generate -> used/unused for 11 ways of use (alone, '+', AND, OR, WITH, parentheses, LicenseRef, unknown, wrong case, none) in one or two files x 7 provision forms (absent, ID.txt, ID.md, ID, sub/ID.txt, ID+.txt, with .license) of three identifiers at a time, comparing missing/unused/bad/deprecated/extension-less/used with a model of the statement; z3 decides L(_LICENSEREF_PATTERN) = LicenseRef-[A-Za-z0-9.-]+ for identifiers of any length. Counterexamples are replayed on a real temporary tree through Project.from_directory.",
+    note="Stubs: reuse_info_of (returns the chosen expression), directory listing, deterministic pseudo-checksum; native pathlib / licence parsing on concrete values. Known findings: used-but-unprovided LicenseRef- reported as bad; LicenseRef pattern accepts a trailing LF. One data pass over the bundled SPDX list is reported separately and is not a solver obligation.",
+)
+CHECKS["C01"] = dict(
+    engine="XH",
+    technique="symbolic execution (CrossHair + z3) of the real lint command body and report aggregation against clauses (a)-(d) of the statement",
+    text="CrossHair explores every path of the real `lint` command body (exit status) and of ProjectReport/FileReport generation for 1 and 2 covered files with symbolic facts (licence expression class, copyright present, read error) and symbolic LICENSES/ contents (three identifiers, absent / ID.txt / extension-less), and confirms exit 0 <=> clauses (a)-(d) hold and that each category names exactly the offenders the model names.",
+    note="Stubs as C06. Bound: <= 2 files, representatives of each identifier class. File discovery, header reading and precedence are owned by C03/C02/C04. Known finding: unprovided LicenseRef- also listed as bad.",
+)
